@@ -178,6 +178,15 @@ theorem part_read_default_chunk (fl : Flavor) (m : UMesh) (hw : WellFormed m = t
   rw [hh] at hp ⊢
   rw [← hdrOf_normalize] at hp ⊢
   simp only [hdrOf_getD0] at hp ⊢
+  have hfit : UgridOffsets.counts_fit ((encodeUgrid fl m).length : Int) (UgridOffsets.ibyte fl.fat)
+      ((hdrOf (normalize m)).getD 0 0) ((hdrOf (normalize m)).getD 1 0) ((hdrOf (normalize m)).getD 2 0)
+      ((hdrOf (normalize m)).getD 3 0) ((hdrOf (normalize m)).getD 4 0) ((hdrOf (normalize m)).getD 5 0)
+      ((hdrOf (normalize m)).getD 6 0) := counts_fit_raw fl (normalize m) hwn
+  simp only [hdrOf_getD0] at hfit
+  have hfit' := hfit
+  simp only [List.getD_eq_getElem?_getD] at hfit'
+  rw [if_neg (fun hc => hc.2.2 hfit)]
+  rw [if_neg (fun hc => hc.2.2 hfit')] at hp
   have hsmall : partHeaderHazard np (hdrOf (normalize m)) = false := partHeaderHazard_wf _ hwn np hnp2
   rw [hsmall] at hp ⊢
   simp only [Bool.false_eq_true, if_false] at hp ⊢
